@@ -239,3 +239,55 @@ func (c *Ctx) globalInitOnly(g *ssa.Global) bool {
 	}
 	return n == 1
 }
+
+// globalByteArray: the constant content of a package-level [N]byte variable
+// that is written only by the package initialiser (element stores of the
+// composite literal; elements not stored are zero) and whose address never
+// escapes (every other use is a load of the whole value or of an element).
+func (c *Ctx) globalByteArray(g *ssa.Global) ([]int64, bool) {
+	at, ok := g.Type().Underlying().(*types.Pointer).Elem().Underlying().(*types.Array)
+	if !ok || at.Len() > 64 {
+		return nil, false
+	}
+	out := make([]int64, at.Len())
+	init := c.P.SPkg.Func("init")
+	fns := append([]*ssa.Function{}, c.P.FuncList...)
+	if init != nil {
+		fns = append(fns, init)
+	}
+	for _, fn := range fns {
+		for _, blk := range fn.Blocks {
+			for _, in := range blk.Instrs {
+				for _, op := range in.Operands(nil) {
+					if *op != ssa.Value(g) {
+						continue
+					}
+					switch v := in.(type) {
+					case *ssa.UnOp: // load of the whole array
+					case *ssa.IndexAddr:
+						for _, r2 := range *v.Referrers() {
+							switch w := r2.(type) {
+							case *ssa.UnOp:
+							case *ssa.Store:
+								if w.Parent() != init || w.Addr != ssa.Value(v) {
+									return nil, false
+								}
+								idx, isC := v.Index.(*ssa.Const)
+								val, isV := w.Val.(*ssa.Const)
+								if !isC || !isV || idx.Value == nil || val.Value == nil {
+									return nil, false
+								}
+								out[idx.Int64()] = val.Int64()
+							default:
+								return nil, false
+							}
+						}
+					default:
+						return nil, false
+					}
+				}
+			}
+		}
+	}
+	return out, true
+}
